@@ -342,6 +342,26 @@ Proof. exact rc_involutive_lemma. Qed.
 Theorem complement_involutive : forall v m s r, complement v m s = Ok r -> complement v m r = Ok s.
 Proof. exact complement_involutive_lemma. Qed.
 
+(** sequence OBJECTS are views: rc() only reverses the view and leaves a pending complement
+    ([sview]: what the view yields + the is_reversed flag); str() applies it.  Whatever the view
+    state (fresh, reversed, sliced, ...), every table (old/new x DNA/RNA), every symbol:
+    str(v.complement()) = complement_string(str(v)), str(v.rc()) = reverse(complement_string(str(v))),
+    str(v[a:b]) = str(v)[a:b] -- for one operation and for any chain of operations *)
+Theorem view_operation_is_string_operation : forall v m sv o,
+  sview_str (comp_table v m) (sview_op (comp_table v m) sv o)
+  = str_op (comp_table v m) (sview_str (comp_table v m) sv) o.
+Proof. exact sview_op_str_lemma. Qed.
+
+Theorem view_operation_chains_are_string_operations : forall v m sv ops,
+  sview_trace (comp_table v m) sv ops = str_trace (comp_table v m) (sview_str (comp_table v m) sv) ops.
+Proof. exact sview_trace_lemma. Qed.
+
+(** complement of a pending-rc view: s.rc().complement() shows reverse(s); s.rc().rc() shows s *)
+Theorem complement_of_rc_view_is_reverse : forall v m s,
+  sview_str (comp_table v m) (sview_op (comp_table v m) (sview_op (comp_table v m) (mk_sview s false) ORc) OComp) = rev s
+  /\ sview_str (comp_table v m) (sview_op (comp_table v m) (sview_op (comp_table v m) (mk_sview s false) ORc) ORc) = s.
+Proof. exact complement_of_rc_lemma. Qed.
+
 (** on canonical strings rc is Watson-Crick reverse complement *)
 Theorem rc_is_watson_crick : forall v s, canon_str s -> rc_pure (comp_table v DNA) s = rc_spec s.
 Proof. exact rc_pure_canon. Qed.
